@@ -28,11 +28,16 @@ var c06CallSites = []string{
 	`<a data-x@>k</a>`, `<a data-x{{if .L}} {{end}}@>k</a>`, `<a @>k</a>`, `<a title{{if .L}}{{end}}x="@">k</a>`, `<a title=@>k</a>`,
 	`<textarea>@</textarea>`, `<title>@</title>`, `<script>@</script>`, `<script type="text/a">@</script>`, `<style>@</style>`, `<!--@-->`,
 	`<svg>@</svg>`, `<p dir="@">x</p>`, `<p id="@">x</p>`, `<img srcset="@">`, `<img srcset="/a 1x, @">`, `<p style="@">x</p>`,
+	// static text too long for the name of a derived template to spell out
+	`<link rel="alternate author bookmark canonical cite help icon license next prev search tag@>`, `<link rel="stylesheet alternate author bookmark canonical cite help icon license next prev@>`,
+	`<script src="https://aaaaaaaaaaaaaaaaaaaaaaaaaaaaaaaaaaaaaaaaaaaaaaaaaaaaaaaaaaaaaaaaaaaaaaaa@"></script>`, `<script src="http://aaaaaaaaaaaaaaaaaaaaaaaaaaaaaaaaaaaaaaaaaaaaaaaaaaaaaaaaaaaaaaaaaaaaaaaaa@"></script>`,
+	`<a href="jjjjjjjjjjjjjjjjjjjjjjjjjjjjjjjjjjjjjjjjjjjjjjjjjjjjjjjjjjjjjjjjjjjjjjjj@">x</a>`,
 	`{{if .L}}<script{{else}}<img{{end}} src="@">`, `<a title="{{if .L}}x{{end}}@">k</a>`, `<a href="{{if .L}}/p?{{end}}@">k</a>`,
 }
 
 var c06HelperBodies = []string{
 	`{{.S}}`, `x{{.S}}`, `{{.S}}x`, `x`, ``, `?q={{.S}}`, `?q=`, `" href="{{.S}}"`, `" href="ja`, `" href="/a?`, `" title="{{.S}}`, `y="1" title="{{.S}}"`, ` title="{{.S}}"`, `="{{.S}}"`,
+	`.example/{{.S}}`, `/{{.S}}`,
 	`{{.S}}{{.S}}`, `{{if .L}}{{.S}}{{end}}`, `:{{.S}}`, `javascript:{{.S}}`, `.{{.S}}`, `&{{.S}}`, `%{{.S}}`, `{{template "G" .}}`, `{{.S | html}}`, `</script>{{.S}}`, `'{{.S}}`, `>{{.S}}`,
 }
 
